@@ -121,6 +121,13 @@ def run(REG, tier, seed, jobs):
     ev, nt, fails = pmap(_parse_chunk, chunked(itertools.chain(gen, extra), 5000), jobs)
     parts.append({'name': 'C02/bounded/parse-print-roundtrip-and-extents', 'function': 'Parser.parse / RawPrinter', 'bound': f'all strings of <= {k} tokens over a {len(TOKENS)}-token alphabet, plus random token soups of 4..12 tokens',
                   'evaluations': ev, 'distinct_nontrivial': nt, 'rule': 'non-trivial: accepted by the parser', 'exhaustive': False, 'failures': fails})
+    from bounded.parser_struct import structured, TEMPLATES, ENDS
+    progs = list(structured(rnd, 300 if tier == 'quick' else 5000))
+    ev, nt, fails = pmap(_parse_chunk, chunked(iter(progs), 2000), jobs)
+    if nt < len(progs) // 2:
+        fails = fails + [{'case': {'text': ''}, 'stage': 'harness', 'detail': f'only {nt} of {len(progs)} structured programs were accepted: the generator no longer exercises the parser'}]
+    parts.append({'name': 'C02/bounded/structured-programs-roundtrip', 'function': 'Parser.parse / RawPrinter', 'bound': f'{len(progs)} programs: {len(TEMPLATES)} statement/block templates x every kind of trivia (blank, tab, continuation, comment, blank line, nothing) at each token boundary x {len(ENDS)} text endings (with and without final newline), random combinations, and all pairs of 15 templates',
+                  'evaluations': ev, 'distinct_nontrivial': nt, 'rule': 'non-trivial: accepted by the parser', 'exhaustive': False, 'failures': fails})
     gen = (''.join(t) for j in range(k + 1) for t in itertools.product(TOKENS, repeat=j))
     ev, nt, fails = pmap(_lex_chunk, chunked(gen, 5000), jobs)
     parts.append({'name': 'C02/bounded/lexer-positions-on-token-strings', 'function': 'Lexer.lex', 'bound': f'all strings of <= {k} tokens over the {len(TOKENS)}-token alphabet (multi-line strings and f-strings included)',
@@ -145,5 +152,6 @@ CHECKS = {
     'C02/bounded/lexer-tiling-and-positions': (_lex_chunk, lambda c: c['text']),
     'C02/bounded/lexer-positions-on-token-strings': (_lex_chunk, lambda c: c['text']),
     'C02/bounded/parse-print-roundtrip-and-extents': (_parse_chunk, lambda c: c['text']),
+    'C02/bounded/structured-programs-roundtrip': (_parse_chunk, lambda c: c['text']),
     'C02/bounded/corpus-build-files': (_parse_chunk, lambda c: c['text']),
 }
